@@ -23,30 +23,18 @@ fn mk(cfg: &str, steps: &str, fin: &str, origin: &str) -> Case {
     }
 }
 
-/// stable class keys of the open StreamWriter panics: by panic MESSAGE (line numbers move with every repair)
-fn panic_class(case: &Case, msg: &str) -> String {
+/// class key of a panic.  N1, N2, N3, N4, N9 are repaired.  Open: N12 — after a failed row write the stream
+/// writer keeps `index == line_len` with `to_write == 0`; the next, narrower frame slices
+/// `curr_buf[..line_len][index..]` (keyed by the panic MESSAGE; line numbers move).  Everything else is
+/// unexpected and keyed by source line.
+fn panic_class(_case: &Case, msg: &str) -> String {
     let loc = msg.rsplit(" @ ").next().unwrap_or("?").to_string();
-    let line = panic_line(msg);
-    if case.cfg.fc.is_some() && expected_with_info_err(&case.cfg).is_some() {
-        return match line {
-            Some(l) => format!("panic/with-info-fctl/{}", l),
-            None => format!("panic/with-info-fctl/{}", loc),
-        };
+    if msg.contains("range start index") && loc.contains("encoder.rs") {
+        return "panic/stream-stale-row-index".into();
     }
-    if msg.contains("range end index 4 out of range") {
-        // N1: `self.buffer[0..4]` in ChunkWriter::write
-        "panic/stream-small-buffer".into()
-    } else if msg.contains("entered unreachable code") {
-        // N2: the `unreachable!()` arms on `Wrapper`
-        "panic/stream-fctl-io-then-write".into()
-    } else if msg.contains("must be called on an animated PNG") {
-        // N9: `set_fctl`
-        "panic/stream-set-fctl".into()
-    } else {
-        match line {
-            Some(l) => format!("panic/encoder.rs:{}", l),
-            None => format!("panic/{}", loc),
-        }
+    match panic_line(msg) {
+        Some(l) => format!("panic/encoder.rs:{}", l),
+        None => format!("panic/{}", loc),
     }
 }
 
@@ -66,20 +54,15 @@ pub fn oracles(case: &Case, obs: &Observed) -> Vec<Finding> {
     // 2a. the repaired refusals (with_info, first image = canvas, indexed without palette)
     f.extend(repaired_misuse_oracles(case, obs));
     // 2. misuse is Err
-    let mut stream_seen = false;
     for c in &obs.calls {
-        if c.kind == CallKind::StreamNew {
-            stream_seen = true;
-        }
         if let Some(m) = c.misuse {
             if c.res == "ok" && m != "first-image-subframe" && m != "indexed-no-palette" {
-                let key = if m == "beyond-declared" && stream_seen { "stream-first-image-not-counted".to_string() } else { format!("misuse-accepted/{}", m) };
-                f.push(("oracle", key, format!("{} ({}) returned Ok although it is misuse: {}", c.kind.name(), c.what, m)));
+                f.push(("oracle", format!("misuse-accepted/{}", m), format!("{} ({}) returned Ok although it is misuse: {}", c.kind.name(), c.what, m)));
             }
         }
     }
     if obs.stream_beyond_declared {
-        f.push(("oracle", "stream-first-image-not-counted".into(), "validate_sequence is on and a stream writer accepted an image beyond the declared ones".into()));
+        f.push(("oracle", "misuse-accepted/stream-beyond-declared".into(), "validate_sequence is on and a stream writer accepted an image beyond the declared ones".into()));
     }
     let declared = case.cfg.declared();
     let fin_list = obs.fin.clone().unwrap_or_default();
@@ -96,17 +79,13 @@ pub fn oracles(case: &Case, obs: &Observed) -> Vec<Finding> {
     // 3. validate_sequence: finish Ok <=> declared images written (sink never failed)
     if case.cfg.val && obs.sink_errors == 0 && obs.hdr == "ok" && !obs.panicked() {
         if let Some(r) = finish_res {
+            // the same rule for both writers since the repairs (stream images are counted, StreamWriter::finish
+            // runs validate_sequence_done).  An abandoned session (N10, open) leaves an fcTL that counts as a frame.
             let equal = obs.images_ok == declared;
-            if !stream {
-                if (r == "ok") != equal {
-                    f.push(("oracle", "validate/finish-mismatch".into(), format!("validate_sequence: finish returned {} with {} of {} declared images written", r, obs.images_ok, declared)));
-                }
-            } else if r == "ok" && obs.images_ok < declared {
-                f.push(("oracle", "stream-finish-skips-validation".into(), format!("validate_sequence: finish returned Ok with {} of {} declared images written", obs.images_ok, declared)));
-            } else if r == "ok" && obs.images_ok > declared {
-                f.push(("oracle", "stream-first-image-not-counted".into(), format!("validate_sequence: finish returned Ok with {} images written, {} declared", obs.images_ok, declared)));
-            } else if r == "err:missingFrames" && equal {
-                f.push(("oracle", "stream-first-image-not-counted".into(), format!("validate_sequence: finish returned MissingFrames although all {} declared images were written", declared)));
+            let _ = stream;
+            if (r == "ok") != equal {
+                let key = if obs.abandoned_session() { "stream-abandoned/validate-finish-mismatch" } else { "validate/finish-mismatch" };
+                f.push(("oracle", key.into(), format!("validate_sequence: finish returned {} with {} of {} declared images written", r, obs.images_ok, declared)));
             }
         }
     }
@@ -115,11 +94,15 @@ pub fn oracles(case: &Case, obs: &Observed) -> Vec<Finding> {
     let parses = sig && end == obs.bytes.len();
     if finish_res == Some("ok") {
         let n = obs.calls.len();
-        let earlier_io = obs.calls.iter().take(n.saturating_sub(1)).any(|c| is_io(&c.res));
-        // D14: a StreamWriter::finish that swallowed a sink error (owned or borrowed) leaves a broken stream behind
-        let swallowed_finish = obs.calls.iter().any(|c| c.kind == CallKind::StreamFinish && c.sink_err && c.res == "ok");
-        let swallowed_drop = obs.calls.iter().any(|c| c.kind == CallKind::StreamDrop && c.sink_err);
-        let incomplete_key = if owned_final || swallowed_finish { "stream-finish-ok-incomplete" } else if swallowed_drop { "stream-drop-error-lost" } else { "finish-ok-incomplete" };
+        // an earlier call reported an I/O error — or the sink failed during a call that returned another error
+        // (`StreamWriter::finish` in the middle of an image: `MissingData`)
+        let earlier_io = obs.calls.iter().take(n.saturating_sub(1)).any(|c| is_io(&c.res) || (c.sink_err && c.res.starts_with("err:")));
+        // remainder of N11 (by design of `Drop`): a session dropped in the MIDDLE of an image cannot report the sink
+        // error of the chunks it still has to write; a complete session has nothing left to write in its drop
+        let _ = owned_final;
+        let swallowed_finish = false;
+        let swallowed_drop = obs.abandoned_session() && obs.calls.iter().any(|c| c.kind == CallKind::StreamDrop && c.sink_err);
+        let incomplete_key = if swallowed_drop { "stream-drop-error-lost" } else { "finish-ok-incomplete" };
         if !earlier_io {
             let iends = chunks.iter().filter(|c| &c.ty == b"IEND").count();
             let last_iend = chunks.last().map(|c| &c.ty == b"IEND" && c.data.is_empty()).unwrap_or(false);
@@ -143,7 +126,7 @@ pub fn oracles(case: &Case, obs: &Observed) -> Vec<Finding> {
     // 6./7. a sink failure is reported by the call during which it happens
     for c in &obs.calls {
         if !c.kind.is_drop() && c.sink_err && c.res == "ok" {
-            let key = if c.kind == CallKind::StreamFinish { "stream-finish-ok-incomplete".to_string() } else { format!("sink-error-swallowed/{}", c.kind.name()) };
+            let key = format!("sink-error-swallowed/{}", c.kind.name());
             f.push(("oracle", key, format!("the sink failed during {} ({}) but the call returned Ok", c.kind.name(), c.what)));
         }
     }
@@ -197,7 +180,7 @@ fn sweep(ctx: &mut Ctx, rng: &mut Rng, base: &Case, full: bool) {
                 }
             }
         }
-        let compare = whole_only && case.sink.call.is_none() && complete && !table.conflict;
+        let compare = (whole_only || case.sink.never_fails() || case.stream_timing_free()) && case.sink.call.is_none() && complete && !table.conflict;
         runs.push((case, obs, table, compare));
     }
     let lines: Vec<String> = runs.iter().filter(|r| r.3).map(|r| r.0.model_line(&r.2.to_str())).collect();
@@ -225,15 +208,17 @@ fn sweep(ctx: &mut Ctx, rng: &mut Rng, base: &Case, full: bool) {
         let mut findings = oracles(case, obs);
         let oracle_failed = !findings.is_empty();
         if *compare {
-            ctx.rep.model_compared += 1;
-            let (mf, _) = compare_model(case, obs, &answers[k], table);
+            let (mf, md) = compare_model(case, obs, &answers[k], table);
             k += 1;
+            if !md.starts_with("skipped") {
+                ctx.rep.model_compared += 1;
+            }
             if !oracle_failed {
                 findings.extend(mf);
             }
-            ctx.rep.count("model comparison", "results + bytes");
+            ctx.rep.count("model comparison", md);
         } else {
-            ctx.rep.count("model comparison", if whole_only { if case.sink.call.is_some() { "no (call-index fault)" } else { "no (table incomplete)" } } else { "no (stream session)" });
+            ctx.rep.count("model comparison", if whole_only { if case.sink.call.is_some() { "no (call-index fault)" } else { "no (table incomplete)" } } else { "no (stream session + failing sink)" });
         }
         report(ctx, case, &table.to_str(), findings);
     }
@@ -284,75 +269,21 @@ fn directed() -> Vec<Case> {
         mk(a, "I01020304;sz0:1;sz3:1;sp2:0;rz;rp;sb1;so2;I05060708", "F", "directed"),
         mk(&format!("{},val=1", a), "S64[w01020304,sz1:1,w05,sz0:0,sp5:5]F;I06", "F", "directed"),
     ]);
+    // requested chunk buffers of 0..6 bytes work since the repair (minimum 5), also animated (the former abort N1);
+    // every setter of the stream writer between the frames, non-default values
+    for size in 0..=6usize {
+        v.push(mk("w=1,h=1,c=0,d=8,an=2:0", "-", &format!("X{}[w07,w09]F", size), "directed"));
+    }
+    v.push(mk("w=2,h=2,c=0,d=8,an=3:0", "I01020304", "X1[w05060708,sd7:9,so2,sb1,sz1:1,sp1:1,w09]F", "directed"));
+    v.push(mk("w=2,h=2,c=0,d=8,an=3:0,val=1", "S0[w01020304,sd300:2,so1,sb1,rp,rz,sz2:1,sp0:1,w0506]F;sd1:1;I0708", "F", "directed"));
+    v.push(mk("w=2,h=2,c=0,d=8,an=2:0,sep=1", "S3[w01020304,w05060708]D", "X4[so2,sb1,w090a0b0c]F", "directed"));
+    // N12 (open): a sink failure during a flush in the middle of the last row, then a narrower frame
+    v.push(mk("w=2,h=1,c=0,d=8,an=2:0,comp=0,filt=0", "-", "X4[sz1:1,w01,f,w02,f,w03]F", "directed"));
+    // sessions that end in the middle of an image (N10 / remainder of N11: open)
+    v.push(mk(g, "S64[w0102]D;I01020304", "F", "directed"));
+    v.push(mk(a, "I01020304;S64[]D;I05060708", "F", "directed"));
+    v.push(mk(&format!("{},val=1", a), "I01020304;S64[w05]F;I05060708", "F", "directed"));
     v
-}
-
-fn abort_probe_case() -> Case {
-    mk("w=1,h=1,c=0,d=8,an=2:0", "-", "X1[w07]F", "abort-probe")
-}
-
-/// N1 aborts the process (a second panic inside a destructor while unwinding): run it in a child
-fn abort_probe(ctx: &mut Ctx) {
-    let case = abort_probe_case();
-    let dir = std::env::temp_dir();
-    let tag = format!("{}-{}", std::process::id(), ctx.seed);
-    let inp = dir.join(format!("c19-probe-{}.json", tag));
-    let out = dir.join(format!("c19-probe-{}-out.json", tag));
-    let mut cj = case.json("-");
-    cj.put("kind", J::s("abort-probe"));
-    let file = J::obj().set("case", cj.clone());
-    if std::fs::write(&inp, file.to_string()).is_err() {
-        ctx.rep.notes.push("abort probe: cannot write the probe file".into());
-        return;
-    }
-    let exe = match std::env::current_exe() {
-        Ok(e) => e,
-        Err(_) => {
-            ctx.rep.notes.push("abort probe: current_exe unavailable".into());
-            return;
-        }
-    };
-    let status = std::process::Command::new(exe)
-        .args(["C19", "--replay", inp.to_str().unwrap_or(""), "--out", out.to_str().unwrap_or("")])
-        .stdout(std::process::Stdio::null())
-        .stderr(std::process::Stdio::null())
-        .status();
-    ctx.rep.eval(true, case.key());
-    ctx.rep.count("abort probe", "run");
-    match status {
-        Ok(st) => {
-            #[cfg(unix)]
-            let signalled = {
-                use std::os::unix::process::ExitStatusExt;
-                st.signal().is_some()
-            };
-            #[cfg(not(unix))]
-            let signalled = st.code().is_none();
-            if signalled {
-                ctx.rep.violation("oracle", "abort/stream-small-buffer", "animated writer + stream buffer smaller than 4 bytes: the process aborts (slice panic in ChunkWriter::write, again inside a destructor while unwinding from the same panic)", cj);
-            } else {
-                let text = std::fs::read_to_string(&out).unwrap_or_default();
-                let j = crate::json::parse(&text).unwrap_or(J::Null);
-                let mut reported = false;
-                if let Some(vs) = j.get("violations").and_then(|v| v.as_arr()) {
-                    for v in vs {
-                        if let Some(k) = v.get("class_key").and_then(|k| k.as_str()) {
-                            if k.starts_with("panic/") {
-                                ctx.rep.violation("oracle", k, v.get("what").and_then(|w| w.as_str()).unwrap_or("panic in the child"), cj.clone());
-                                reported = true;
-                            }
-                        }
-                    }
-                }
-                if !reported {
-                    ctx.rep.count("abort probe", &format!("child exit {:?}, no panic reported", st.code()));
-                }
-            }
-        }
-        Err(e) => ctx.rep.notes.push(format!("abort probe: cannot start the child: {}", e)),
-    }
-    let _ = std::fs::remove_file(&inp);
-    let _ = std::fs::remove_file(&out);
 }
 
 fn single(ctx: &mut Ctx, case: &Case) {
@@ -361,7 +292,7 @@ fn single(ctx: &mut Ctx, case: &Case) {
     ctx.rep.eval(obs.panicked() || obs.sink_errors > 0 || case.origin == "extreme", case.key());
     ctx.rep.count("sweep", "single fault-free run");
     let mut findings = oracles(case, &obs);
-    if findings.is_empty() && case.sink.call.is_none() && (case.sink.never_fails() || !case.has_stream()) {
+    if findings.is_empty() && case.sink.call.is_none() && (case.sink.never_fails() || !case.has_stream() || case.stream_timing_free()) {
         let ans = model::ask_one(&[case.model_line(&table.to_str())]);
         ctx.rep.model_compared += 1;
         findings.extend(compare_model(case, &obs, &ans[0], &table).0);
@@ -375,7 +306,7 @@ pub fn run(ctx: &mut Ctx) {
         the program continues after a failed call.  Oracles per run: no panic; misuse (wrong data length, image beyond the declared ones under validate_sequence, zero / out-of-range setter arguments, setters on a non-animated writer) is Err; \
         validate_sequence: finish Ok <=> declared images written; finish Ok => complete chunk stream ending in exactly one IEND (and valid per the C12 validator when the program is in the C12 domain); never two IENDs; \
         a sink failure is reported by the call during which it happens (drops excepted).  Model: `c12 run` with the same sink for whole-image programs under byte-offset / flush faults (all results, accepted byte count, FNV of the bytes, IEND attempts). \
-        Directed: with_info frame controls that panic, extreme dimensions, one abort probe in a child process.  non-trivial = the injected fault fired (or a panic occurred); distinct = hash of program text + sink".into();
+        Fault-free stream-session programs are compared with the model as well (results, every chunk incl. all fcTL fields).         Directed: with_info frame controls that used to panic, extreme dimensions, requested chunk buffers of 0..6 bytes with animation (in-process: the former abort is repaired),         every stream-writer setter between frames, sessions ended in the middle of an image.  non-trivial = the injected fault fired (or a panic occurred); distinct = hash of program text + sink".into();
     let mut rng = ctx.rng.fork(19);
     for base in directed() {
         sweep(ctx, &mut rng, &base, true);
@@ -393,7 +324,7 @@ pub fn run(ctx: &mut Ctx) {
             cfg.sep = rng.chance(1, 4);
         }
         let mut case = if i % 2 == 0 {
-            let pct = if cfg.anim.is_some() { 15 } else { 40 };
+            let pct = if cfg.anim.is_some() { 50 } else { 40 };
             complete_program(&mut rng, &cfg, pct, "random-small")
         } else {
             let mut c = random_program(&mut rng, &cfg);
@@ -412,7 +343,7 @@ pub fn run(ctx: &mut Ctx) {
         let mut cfg = rand_cfg(&mut rng);
         cfg.w = cfg.w.min(8);
         cfg.h = cfg.h.min(8);
-        let pct = if cfg.anim.is_some() { 10 } else { 30 };
+        let pct = if cfg.anim.is_some() { 40 } else { 30 };
         let case = complete_program(&mut rng, &cfg, pct, "random-large");
         sweep(ctx, &mut rng, &case, false);
     }
@@ -424,18 +355,17 @@ pub fn run(ctx: &mut Ctx) {
     for c in extreme_cases() {
         single(ctx, &c);
     }
-    abort_probe(ctx);
 }
 
 pub fn replay(ctx: &mut Ctx, case: &J) {
-    let probe = case.get("kind").and_then(|k| k.as_str()) == Some("abort-probe");
+    let probe = false;
     if let Some(c) = Case::from_json(case) {
         let obs = exec(&c);
         let table = learn_table(&c, &obs);
         ctx.rep.eval(true, c.key());
         ctx.rep.notes.push(format!("hdr={} ops={} fin={} n={} panics={:?}", obs.hdr, obs.ops_string(&c), obs.fin_string(&c), obs.bytes.len(), obs.panics));
         let mut findings = oracles(&c, &obs);
-        if !probe && findings.is_empty() && c.sink.call.is_none() && (c.sink.never_fails() || !c.has_stream()) {
+        if !probe && findings.is_empty() && c.sink.call.is_none() && (c.sink.never_fails() || !c.has_stream() || c.stream_timing_free()) {
             let ans = model::ask_one(&[c.model_line(&table.to_str())]);
             findings.extend(compare_model(&c, &obs, &ans[0], &table).0);
         }
